@@ -402,7 +402,7 @@ def c08_routes(tier, seed):
 C16_PROGRAMS = ["x = 1", "def f(a, *b, c=1):\\n    return a", "import os\\nprint(os.sep)", "class A:\\n    '''doc'''\\n    def m(self): return 1",
                 "y = [i for i in range(3)]", "async def f():\\n    yield 1", "lambda: (1, 2.0, 'a', b'b', None, ...)", "x = 1e999 - 1e999",
                 "while a:\\n    a -= 1", "try:\\n    pass\\nfinally:\\n    z = 2", "", "pass",
-                "greeting = 'h\u00e9llo w\u00f6rld \u4e16\u754c'", "p = 'C:\\\\temp\\\\x' + '\\'' + \"\\t\""]
+"greeting = 'h\u00e9llo w\u00f6rld \u4e16\u754c'", "p = 'C:\\\\temp\\\\x' + '\\'' + \"\\t\""]
 
 
 def _cli(args, cwd=None):
@@ -427,10 +427,14 @@ def _dis_names(text):
     return re.findall(r"^\s*(?:\d+\s+)?(?:>>\s+)?\d+\s+([A-Z][A-Z_0-9+]*)\b", text, re.M)
 
 
-def _c16_case(kind, prog, flags, tmpdir):
+# program texts given through -e / a file exactly as they are (a backslash followed by n inside a literal stays what it is)
+C16_RAW_PROGRAMS = ['greeting = "hello\\nworld"\nprint(greeting)\n', "pattern = r'\\n|\\t'\nx = len(pattern)\n"]
+
+
+def _c16_case(kind, prog, flags, tmpdir, raw=False):
     """returns messages"""
     msgs = []
-    real_src = prog.replace("\\n", "\n")
+    real_src = prog if raw else prog.replace("\\n", "\n")
     if kind == "c":
         args, fn = ["-c", prog], "<string>"
     elif kind == "e":
@@ -473,7 +477,8 @@ def c16_cli(tier, seed):
         for args, expect_ok in [([], False), (["-c", "x=1", "-e", "'x=1'"], False), ([path, "-c", "x=1"], False), (["-c", "x=1", "-m", "json"], False),
                                 ([path, "-m", "json"], False), (["-c", "x=1"], True), (["-e", "'x=1'"], True), ([path], True), (["-m", "json.tool"], True),
                                 (["-c", ""], True), (["-e", "''"], True), (["-c", "", "-e", "''"], False), (["-c", "", path], False),
-                                (["-c", "json", "-m", "json"], False), (["-c", "x=1", "-e", "x=1"], False)]:
+                                (["-c", "json", "-m", "json"], False), (["-c", "x=1", "-e", "x=1"], False),
+                                ([path, path], False), ([path, "--json", path], False), ([path, path, "-c", "x=1"], False)]:
             evals += 1
             rc, out, err = _cli(args)
             if expect_ok and rc != 0:
@@ -498,6 +503,16 @@ def c16_cli(tier, seed):
                     if msgs:
                         fails.append(fail("cli_contract", "%s:%r:%s" % (kind, prog, " ".join(flags)), msgs, {"kind": kind, "prog": prog, "flags": flags},
                                           ["empty-source-string"] if prog == "" else []))
+        for prog in C16_RAW_PROGRAMS:
+            for kind in ("e", "file"):
+                for flags in ([], ["--json"]):
+                    evals += 1
+                    try:
+                        msgs = _c16_case(kind, prog, flags, tmpdir, raw=True)
+                    except Exception as e:
+                        msgs = ["case raised %s: %s" % (type(e).__name__, e)]
+                    if msgs:
+                        fails.append(fail("cli_contract", "%s:%r:%s" % (kind, prog, " ".join(flags)), msgs, {"kind": kind, "prog": prog, "flags": flags, "raw": True}))
         # -m module, and --dis vs --dis-after show the same instructions
         for mod in ["json.tool", "colorsys"] + (["textwrap", "bisect"] if tier == "thorough" else []):
             evals += 1
@@ -532,7 +547,7 @@ def c16_replay(rec):
         return []
     d = tempfile.mkdtemp(prefix="pcv-c16r-")
     try:
-        return _c16_case(r["kind"], r["prog"], r["flags"], d)
+        return _c16_case(r["kind"], r["prog"], r["flags"], d, raw=r.get("raw", False))
     finally:
         import shutil
         shutil.rmtree(d, ignore_errors=True)
@@ -571,3 +586,30 @@ def c08_corpus(code, dec):
 
 from .props2 import CORPUS_CHECKS as _CC
 _CC["C08"] = [("hashable_value_across_routes", c08_corpus)]
+
+
+def c10_real_tables(code, dec):
+    """every line table found in real compiled code: decoded per-instruction lines equal CPython's, re-encoding reproduces the table"""
+    cd, err = dec.get(code)
+    if err is not None:
+        return []
+    msgs = []
+    lines = oracle.cpython_line_of_offsets(code)
+    ref = oracle.cpython_instructions(code)
+    flat_ins = [i for b in cd.blocks for i in b]
+    if len(ref) == len(flat_ins):
+        for ins, (off, opname, kind, val, n) in zip(flat_ins, ref):
+            if ins.line_number != lines.get(off):
+                msgs.append("offset %d (%s): decoded line %r, CPython's table gives %r" % (off, opname, ins.line_number, lines.get(off)))
+                break
+    try:
+        back = cd.to_code()
+    except Exception:
+        return msgs          # C01/C03 report encoder failures
+    a, b = (code.co_linetable, back.co_linetable) if PY310 else (code.co_lnotab, back.co_lnotab)
+    if a != b:
+        msgs.append("code.%s: %r != %r" % ("co_linetable" if PY310 else "co_lnotab", list(a)[:24], list(b)[:24]))
+    return msgs
+
+
+_CC["C10"] = [("real_tables_roundtrip", c10_real_tables)]
